@@ -13,6 +13,8 @@ Last full run (2026-09-23, quick tier, seed 1): all 13 mutants caught (exit 1):
   M8 advance_loc2 `<=0x10000`, M9 FDE length written with the full encoding byte, M10 code delta
   not re-multiplied, M11 pcrel `wrapping_add`, M12 .eh_frame CIE pointer off by 4,
   M13 CIE offset not remembered (CIE written per FDE).
+M14 / M15 re-introduce the two repaired defects (CIE padding from word_size; .eh_frame register as
+ULEB128) and were added after the repairs 6ecac83 / f783db3.
 """
 import subprocess, sys, os, re, shutil
 MUT='/var/tmp/gimli-mut-C14'
@@ -26,7 +28,23 @@ muts = {
                     w.write_u8(constants::DW_CFA_val_offset_sf.0)?;""","""                let offset = factored_data_offset(offset, cie.data_alignment_factor)?;
                 if offset > 0 {
                     w.write_u8(constants::DW_CFA_val_offset_sf.0)?;""")],
- 'M3-padding-no-length-field': [("""        write_nop(
+ 'M3-padding-no-length-field': [("""        write_nop(w, w.len() - offset, encoding.address_size)?;
+
+        let length = (w.len() - length_base) as u64;
+        w.write_initial_length_at(length_offset, length, encoding.format)?;
+
+        Ok(())""","""        write_nop(w, w.len() - length_base, encoding.address_size)?;
+
+        let length = (w.len() - length_base) as u64;
+        w.write_initial_length_at(length_offset, length, encoding.format)?;
+
+        Ok(())""")],
+ 'M14-padding-word-size': [("""        write_nop(w, w.len() - offset, encoding.address_size)?;
+
+        let length = (w.len() - length_base) as u64;
+        w.write_initial_length_at(length_offset, length, encoding.format)?;
+
+        Ok(offset)""","""        write_nop(
             w,
             encoding.format.word_size() as usize + w.len() - length_base,
             encoding.address_size,
@@ -35,16 +53,8 @@ muts = {
         let length = (w.len() - length_base) as u64;
         w.write_initial_length_at(length_offset, length, encoding.format)?;
 
-        Ok(())""","""        write_nop(
-            w,
-            w.len() - length_base,
-            encoding.address_size,
-        )?;
-
-        let length = (w.len() - length_base) as u64;
-        w.write_initial_length_at(length_offset, length, encoding.format)?;
-
-        Ok(())""")],
+        Ok(offset)""")],
+ 'M15-eh-ra-uleb': [("        if encoding.version == 1 {\n            let register = self.return_address_register.0 as u8;","        if !eh_frame && encoding.version == 1 {\n            let register = self.return_address_register.0 as u8;")],
  'M4-dedup-ignores-instructions': [("""#[derive(Debug, Clone, PartialEq, Eq, Hash)]
 pub struct CommonInformationEntry {""","""#[derive(Debug, Clone)]
 pub struct CommonInformationEntry {"""),("""impl CommonInformationEntry {
